@@ -13,7 +13,7 @@ import (
 )
 
 type c07Stats struct {
-	execs, pinnedIters, multiBucket, txWithIter, txNoIter, maxIters, akashIters, akashMulti int64
+	execs, pinnedIters, multiBucket, txWithIter, txNoIter, maxIters, akashIters, akashMulti, clockReads int64
 }
 
 var c07 c07Stats
@@ -96,6 +96,21 @@ func (chkC07) CheckTrans(t *TransCtx) (out []Viol) {
 	if free != base {
 		out = append(out, Viol{"C07.deterministic", "differs-from-free-run:" + t.Act.Kind, fmt.Sprintf("%s: execution with pinned map order differs from the free-running execution (ok=%v/%v err=%q/%q)", t.Act.Name, res0.OK, t.Res.OK, res0.Err, t.Res.Err)})
 	}
+	// the wall clock must not matter either: re-execute "ten years later" and "ten years earlier"
+	for _, shift := range []int64{10 * 365 * 86400, -10 * 365 * 86400} {
+		st := t.PreSt.Branch()
+		verifMapSet(0, 0, 0)
+		verifTimeSet(shift)
+		res := w.Exec(st, t.Act.Msg(w.Cast))
+		nows := verifTimeNows()
+		verifMapClear()
+		atomic.AddInt64(&c07.execs, 1)
+		atomic.AddInt64(&c07.clockReads, int64(nows))
+		if fingerprint(w, st, res) != base {
+			out = append(out, Viol{"C07.deterministic", "wall-clock:" + t.Act.Kind, fmt.Sprintf("%s: result depends on the wall clock (re-executed with time.Now() shifted by %d years: ok=%v err=%q; at the real time: ok=%v err=%q)", t.Act.Name, shift/(365*86400), res.OK, res.Err, res0.OK, res0.Err)})
+			return out
+		}
+	}
 	if cnt == 0 {
 		atomic.AddInt64(&c07.txNoIter, 1)
 		return out
@@ -151,7 +166,7 @@ func c07Extra(thorough bool) (extraResult, error) {
 		"multi_bucket_map_iterations": atomic.LoadInt64(&c07.multiBucket),
 		"map_iterations_in_akash_code": atomic.LoadInt64(&c07.akashIters), "multi_bucket_map_iterations_in_akash_code": atomic.LoadInt64(&c07.akashMulti), "transactions_iterating_maps": atomic.LoadInt64(&c07.txWithIter),
 		"transactions_without_map_iteration": atomic.LoadInt64(&c07.txNoIter), "max_map_iterations_in_one_tx": atomic.LoadInt64(&c07.maxIters),
-		"hook_selftest_distinct_orders": len(orders)}
+		"hook_selftest_distinct_orders": len(orders), "time_now_calls_under_shifted_clock": atomic.LoadInt64(&c07.clockReads)}
 	ne := ""
 	if n := atomic.LoadInt64(&c07.akashMulti); n > 0 {
 		ne = fmt.Sprintf("%d iterations over multi-bucket maps happened inside akash code; their order also depends on the per-map hash seed, which is not enumerated", n)
